@@ -121,6 +121,30 @@ def run(ctx):
     elif hp.get("model_violation") and hp.get("window") != "closed":
         ctx.notes.append("timing_unconfirmed: the order inversion of FedEmit.tla was not obtained on the real hooks in %s tries"
                          % hp.get("tries"))
+    # byte grain: real gRPC between two real Federation objects, a proxy cuts the TCP connection after scripted byte counts in
+    # either direction; the traces are validated by TLC against FedDelivery.tla
+    import random, fedgrpc_lib
+    rng = random.Random(ctx.seed)
+    gs = fedgrpc_lib.scenarios(rng, "s%d" % ctx.seed, 32 if ctx.tier == "quick" else 400)
+    rejected, gstats = fedgrpc_lib.run(ctx, gs, par=32)
+    ctx.cov["real_grpc_byte_cuts"] = gstats
+    ctx.cov["traces_validated_against_impl"] += gstats["validated"] + gstats["rejected"]
+    ctx.cov["evaluations"] += gstats["events"]
+    for r in rejected[:6]:
+        ev = r["event"]
+        absence = '"e":"quiet"' in ev
+        if absence:
+            # the obligation at quiescence depends on the driver's patience (20 s): once more, alone
+            rej2, _ = fedgrpc_lib.run(ctx, [dict(r["scenario"], id=r["scenario"]["id"] + "-again")], name="fedgrpc_again", par=1)
+            if not rej2:
+                ctx.cov["timing_unconfirmed"] = ctx.cov.get("timing_unconfirmed", 0) + 1
+                continue
+            r = rej2[0]
+        ctx.violation("real gRPC stream with byte-level cuts: trace of scenario %s rejected at line %d: %s -- FedDelivery.tla does not explain this event "
+                      "(apply: not the next emitted message; quiet: not everything applied / B's view of A differs from A's local set)" % (
+                          r["scenario"]["id"], r["line"], r["event"][:300]),
+                      {"signature": "C16:grpc:" + ("quiet" if '"e":"quiet"' in r["event"] else "apply"), "kind": "fedgrpc-trace", "scenario": r["scenario"],
+                       "line": r["line"], "event": r["event"], "trace": r["trace"]})
     if ctx.tier != "quick":
         # model-only: with the two proposed repairs modelled every clause holds (never a verdict)
         res = fed_lib.design_check_stream(ctx, "repaired", ["c1", "c2"], ["t"],
